@@ -111,6 +111,57 @@ def streams(rng, tier):
     s2t = Stream("int-tokens", "hcore", tk_ops, judge=judge_tok,
                  rule="tokdec <integer head>: the token carries exactly the integer denoted (kind's range contains it), for every width and boundary")
     s2t.shrinkable = False
+    # integers reached through the typed iterators, elements that do not fit in between: every element is answered on its own
+    it_ops = []
+    pool = [0, 1, 23, 24, 255, 256, 300, 65535, 65536, 2**32, 2**64 - 1, -1, -24, -25, -256, -257, -2**63, -2**64]
+    def ihead(v, w=None): return gen.head(0, v, w) if v >= 0 else gen.head(1, -1 - v, w)
+    def ishow(v): return str(v) if 0 <= v <= 255 else ("E:overflow" if v > 255 else "E:type")
+    for _ in range(2500 if tier == "quick" else 50000):
+        n = rng.choice([1, 2, 3, 3, 4, 6, 10])
+        # (an element of the wrong major type is refused after its head byte alone, what follows is then not an element boundary:
+        # negative integers only in the last place; too large unsigned ones are read whole and refused, anywhere)
+        vs = [rng.choice([v for v in pool if v >= 0]) if rng.random() < 0.6 else rng.choice([5, 7, 200]) for _ in range(n)]
+        if rng.random() < 0.3: vs[-1] = rng.choice([v for v in pool if v < 0])
+        neg_last = vs[-1] < 0
+        ws = [rng.choice([None, None, 8]) for _ in vs]
+        kind = rng.choice(["array", "arrayc", "map"])
+        if kind == "map":
+            if n % 2: vs, ws = vs + [9], ws + [None]
+            body = b"".join(ihead(v, w) for v, w in zip(vs, ws))
+            indef = rng.random() < 0.5
+            e = (b"\xbf" + body + b"\xff") if indef else gen.head(5, len(vs) // 2) + body
+            # a pair stops at its first failing half (the value is then not read: what follows is taken for the next key)
+            if any(not 0 <= v <= 255 for v in vs): continue
+            exp = ",".join(f"{vs[i]}={vs[i + 1]}" for i in range(0, len(vs), 2))
+        else:
+            body = b"".join(ihead(v, w) for v, w in zip(vs, ws))
+            indef = rng.random() < 0.5
+            e = (b"\x9f" + body + b"\xff") if indef else gen.head(4, len(vs)) + body
+            exp = ",".join(ishow(v) for v in vs)
+        tail = rng.choice([b"", b"\x07", b"\x19\x01\x2c"])
+        if neg_last:
+            # where a refused element of the wrong major type leaves the decoder is the accessor's business (C04 / the model): only the
+            # answers before it are this stream's
+            it_ops.append(f"aiter {kind} allx {(e + tail).hex()} #P={','.join(exp.split(',')[:-1])}")
+        else:
+            it_ops.append(f"aiter {kind} allx {(e + tail).hex()} #E={exp}~@{len(e)}")
+    def judge_it(op, impl, model, spec):
+        if " | " not in impl:
+            return "violation"
+        a, b = impl.split(" | ")
+        pre = [x for x in op.split(" ") if x.startswith("#P=")]
+        if pre:
+            if a != b or not (a.startswith(pre[0][3:] + ",") or pre[0][3:] == ""):
+                return "violation"
+            return "ok" if model == a else "corr"
+        exp = [x for x in op.split(" ") if x.startswith("#E=")][0][3:].replace("~", " ")
+        if a != exp or b != exp:
+            return "violation"              # an element that fits came back as an error / not at all / with another value, or the iterator stopped elsewhere
+        return "ok" if model == a else "corr"
+    s2i = Stream("ints-through-iterators", "hcore", it_ops, judge=judge_it, nontrivial=lambda op, impl: " | " in impl,
+                 rule="aiter allx: array_iter / array_iter_with / map_iter over integers of every width and sign as u8, unrepresentable ones in between: each element is "
+                      "its value or its own error, the next element is the next element, the end is the end of the container")
+    s2i.shrinkable = False
     # Int <-> primitive conversions: oracle = plain integer arithmetic
     TR = dict({k: v for k, v in RANGE.items() if k != "int"}, u128=(0, 2**128 - 1), i128=(-2**127, 2**127 - 1))
     conv = []
@@ -173,7 +224,7 @@ def streams(rng, tier):
     s4 = Stream("typed-int-impls", "hcore", tops, model_ops=tmops, judge=judge_typed,
                 rule="tdec of usize/isize/NonZero*/Atomic*/Int/the eight fixed types on every (sign,width,argument) head: value iff representable (and non-zero for NonZero), position = head length")
     s4.shrinkable = False
-    return [s1, s2, s2t, s3, s4]
+    return [s1, s2, s2t, s2i, s3, s4]
 
 
 DT_ACC = {"u8": "u8", "u16": "u16", "u32": "u32", "u64": "u64", "i8": "i8", "i16": "i16", "i32": "i32", "i64": "i64", "int": "int"}
